@@ -964,7 +964,7 @@ def check(run, db, tier):
     run.rule('C06.dm', 'DM companion runs the forward stages in reverse with corresponding geometry; pad/crop guards compare one axis')
     # the transform pairs as adjoints on values: <A x, y> == <x, A^H y> for symbolic complex samples (matrix-DFT executor and the
     # fixed-sampling routines with their _backprop companions, two size pairs each, with and without a shift)
-    from .c06values import adjoint_value_rules, babinet_adjoint_value_rules, fd_adjoint_value_rules
+    from .c06values import adjoint_value_rules, babinet_adjoint_value_rules, fd_adjoint_value_rules, dm_resize_value_rules
     run.group(adjoint_value_rules, run, db)
     run.babinet_on_values = run.group(babinet_adjoint_value_rules, run, db)
     for fn in (inventory_rules, matrix_rules, fixed_rules, chain_rules, babinet_bp_rules, wrapper_rules, const_rules, activation_rules, cost_rules, sum_rules, fd_rules, dm_rules, resample_adjoint_rules):
@@ -974,6 +974,8 @@ def check(run, db, tier):
     n_fd = run.group(fd_adjoint_value_rules, run, db)
     run.forgive('fd_adjoint_value_rules', ['fd_rules'])
     run.defer('fd_rules', 'fd_adjoint_value_rules', n_fd)
+    run.group(dm_resize_value_rules, run, db)
+    run.forgive('dm_resize_value_rules', ['dm_rules'])
     run.require_instances('C06.matrix', 20)
     run.require_instances('C06.fixed', 16)
     run.require_instances('C06.chain', 8)
